@@ -1,5 +1,7 @@
 package anytype
 
+import "math"
+
 // C13 — native conversions are faithful, recursive and never aliased with the container.
 
 // hNativeSnap walks a native Go value; ok=false if an anytype container (or any other type) appears.
@@ -391,5 +393,25 @@ func H_C13_derived_and_nil_elements() {
 		v, has := d["n"]
 		verifAssert(len(d) == 4 && has && v == nil && d["l"] == any(dl) && d["o"] == any(do), "Dict holds exactly what Get returns per key (containers by identity)")
 	}
+	verifReach("end")
+}
+
+// non-finite floats are floats too: they come back from every export as they went in
+func H_C13_non_finite_floats() {
+	inf := math.Inf(1)
+	if nondetIntRange(0, 1) == 1 {
+		inf = math.Inf(-1)
+	}
+	l := NewListFrom([]any{inf, []float64{inf}, map[string]float64{"k": inf}})
+	ns := l.NativeSlice()
+	ok := len(ns) == 3 && ns[0] == any(inf) && l.TypeOf(0) == TypeFloat && l.GetFloat(0) == inf
+	if ok {
+		in1, is1 := ns[1].([]any)
+		in2, is2 := ns[2].(map[string]any)
+		ok = is1 && is2 && len(in1) == 1 && in1[0] == any(inf) && in2["k"] == any(inf)
+	}
+	verifAssert(ok, "NewXFrom(native).NativeX reproduces the content of the input (non-finite floats included)")
+	o := NewObjectFrom(map[string]any{"a": inf})
+	verifAssert(o.Dict()["a"] == any(inf) && o.NativeDict()["a"] == any(inf), "Dict and NativeDict hold exactly what Get returns")
 	verifReach("end")
 }
